@@ -135,14 +135,14 @@ PROPS = {
                            'untainted-seen minus accepted-taint-adds >= effective minimum whenever a taint is added; C03_below_min: below the minimum nothing is tainted; C03_restore: with the node count within bounds, fewer untainted nodes than the minimum and no cool-down running (for ANY controller state, hence whatever earlier scans left behind) the scan is exactly ScaleUp(min - untainted) on the tainted nodes: untaint newest first, then the remainder from the cloud (C07_order, C07_remainder) - no early return. '
                            'Tie: hist correspondence on taint-adding and taint-removing updates; the same predicate monitored on observed journals.',
                 level_note=LEVEL_NOTE),
-    'C04': dict(level='proof', module='EscProofs.P.C04',
+    'C04': dict(level='proof', module='EscProofs.P.Bounds',
                 streams=dict(quick=[('scenario', ['-dir', '@ROOT/corpus/C04']), ('hist', ['-n', 400, '-scans', 10]), ('hist', ['-n', 250, '-scans', 10, '-focus', 'up']), ('awsops', ['-n', 2000]), ('fleetops', ['-n', 96]), ('hist', ['-n', 8, '-scans', 6, '-focus', 'fleet'])],
                              thorough=[('scenario', ['-dir', '@ROOT/corpus/C04']), ('hist', ['-n', 20000, '-scans', 12]), ('hist', ['-n', 10000, '-scans', 12, '-focus', 'up']), ('awsops', ['-n', 100000]), ('fleetops', ['-n', 1600]), ('hist', ['-n', 200, '-scans', 8, '-focus', 'fleet'])],
                              search=[('hist', ['-n', 1500, '-scans', 12]), ('hist', ['-n', 1500, '-scans', 12, '-focus', 'up']), ('awsops', ['-n', 20000]), ('fleetops', ['-n', 300]), ('hist', ['-n', 40, '-scans', 8, '-focus', 'fleet'])]),
                 aspects=['hist:resize', 'cached-desired'], monitors=['C04'],
-                theorems=['Esc.P.C04_bound', 'Esc.P.C04_clamp_exact', 'Esc.P.C04_history'],
+                theorems=['Esc.P.C04_bound', 'Esc.P.C04_clamp_exact', 'Esc.P.C04_history', 'Esc.P.bounds_history', 'Esc.P.C04_history_configured', 'Esc.P.runOnce_fresh'],
                 technique='Lean 4 theorem (walk of the journal with the running desired size; exact characterisation of IncreaseSize requests) + differential correspondence and runtime monitor',
-                level_text='C04_bound / C04_history: every SetDesiredCapacity value and every fleet request, on top of the desired size at that moment, is <= min(max_nodes, cloud max), for all inputs and histories; '
+                level_text='bounds_history / C04_history_configured (EscProofs/P/Bounds.lean): along every history from NewController (distinct group names), the max_nodes a scan clamps against IS the configured one - no scan and no cloud answer moves it - or, under auto-discovery, the maximum of the cloud description the scan starts from, which runOnce_fresh shows to be an answer of that same scan. C04_bound / C04_history: every SetDesiredCapacity value and every fleet request, on top of the desired size at that moment, is <= min(max_nodes, cloud max), for all inputs and histories; '
                            'C04_clamp_exact: the clamp lands exactly on the bound and yields no request without headroom. Tie: hist correspondence on resize calls (arguments) + monitor; awsops/fleetops sequences on one provider (removals whose termination AWS rejects, then a request up to the maximum the provider reports) with the provider\'s cached desired size compared and every request checked against the cloud maximum counted from the real desired size.',
                 level_note=LEVEL_NOTE),
     'C05': dict(level='proof', module='EscProofs.P.Rne',
